@@ -92,6 +92,23 @@ def run_job(job):
             finally:
                 torch.randn_like = orig
             draws = 1
+            # one real step of the engine: how many normal draws it makes and whether they are independent draws
+            rec_draws = []
+
+            def rec(t, *a_, **k_):
+                o_ = orig(t, *a_, **k_)
+                rec_draws.append(o_.detach().clone())
+                return o_
+
+            torch.randn_like = rec
+            try:
+                # (a fresh engine object: a surface-hopping object keeps per-trajectory electronic state of its first batch)
+                mds, mol2, _ = mdlib.build_md(dict(case, system=c["system"], temp=c["temp"], damp=c["damp"]), os.path.join(wd, "mds%d" % n))
+                mol2.velocities = torch.zeros_like(mol2.coordinates)      # supplied: no draw for the initial velocities
+                mds.run(mol2, steps=1, reuse_P=True, seed=5)
+            finally:
+                torch.randn_like = orig
+            stepinfo = {"stepdraws": len(rec_draws), "distinct": bool(len(rec_draws) < 2 or all(float((rec_draws[i] - rec_draws[j]).abs().max()) > 0 for i in range(len(rec_draws)) for j in range(i)))}
         else:
             molB, draws = _one_step(md, c["system"], params, 0.01, [0.0] * 8)
             a = molB.velocities / 0.01
@@ -120,7 +137,11 @@ def run_job(job):
                 if c["temp"] > 0 and not inf and 1.0 - a0 * a0 > 0:
                     sigma2 = c["temp"] / TEMP / float(mass[m, at, 0]) * ACC
                     ratio = nvar / (sigma2 * (1.0 - a0 * a0))
+                extra = stepinfo if operator_level else {"stepdraws": int(draws), "distinct": True}
+                if inf or c["temp"] == 0.0:
+                    extra = dict(extra, distinct=True)       # no noise requested: nothing to compare
                 recs.append({
+                    "stepdraws": int(extra["stepdraws"]), "distinct": bool(extra["distinct"]),
                     "id": f"{job['id']}/{n}/{m}/{at}", "engine": job["engine"], "run": n, "level": "operator" if operator_level else "step", "temp": int(round(c["temp"])), "inf": bool(inf), "draws": int(draws),
                     "a9": fx9(a0), "ratio9": fx9(ratio), "gsum9": fx9(sum(float(g.abs().max()) for g in gs)), "iso9": fx9(iso), "pad9": fx9(padv),
                     "z": int(species[m, at]), "dt_over_damp": (0.0 if inf else job["dt"] / c["damp"]),
